@@ -294,6 +294,12 @@ func judge(s *spec, e *expectation, mode string, r result, ref *inlineRef, goPkg
 				return []finding{{Sig: "C18|separate|import-without-go_package-accepted|" + shape,
 					Msg: "separate mode returned a result although an imported file has no go_package const"}}
 			}
+			// The go_package graph is cyclic even when every file without go_package counts as a package of its own (the
+			// reading with the fewest cycles): the statement asks for the import-cycle error, whatever else is wrong.
+			if e.PkgCyclic && !mentionsCycle(r.Err) {
+				return []finding{{Sig: "C18|cycle-verdict|missed-other-error|" + shape + "|separate",
+					Msg: "the go_package graph reachable from the root is cyclic (however files without go_package are counted) but the error does not report a cycle: " + r.errText()}}
+			}
 		case e.PkgCyclic:
 			if r.Err == nil {
 				return []finding{{Sig: "C18|cycle-verdict|missed|" + shape + "|separate",
